@@ -177,6 +177,23 @@ def _full(mod, ctx, a) -> int:
         _collect(mod, ctx)
 
     # generator floors
+    # coverage-guided stage (thorough tier of the checks that ask for it): libFuzzer mutates the byte stream Hypothesis
+    # decodes into a case, guided by branch coverage of the MxlPy modules under test; same strategy, same oracle
+    fz = b.get("fuzz_seconds")
+    if fz and a.shard is None:
+        so = ctx.work / "fuzz_state.json"
+        env = dict(os.environ, PYTHONPATH=f"{ROOT}/.deps:{ROOT}:" + os.environ.get("PYTHONPATH", ""))
+        try:
+            subprocess.run([sys.executable, str(ROOT / "tools" / "fuzz.py"), ctx.pid, "--seconds", str(fz), "--state-out", str(so)], cwd=str(ROOT), env=env, timeout=fz + 180, stdout=subprocess.DEVNULL, stderr=subprocess.DEVNULL, check=False)
+        except subprocess.TimeoutExpired:
+            pass
+        if so.exists():
+            st = json.loads(so.read_text())
+            ctx.merge_state(st)
+            ctx.notes.append(f"coverage-guided stage (atheris/libFuzzer over the same strategy and oracle): {st['fuzz']['executions']} executions in {st['fuzz']['seconds']} s, {len(st['nontrivial'])} distinct non-trivial cases")
+        else:
+            ctx.notes.append("coverage-guided stage produced no state (atheris not installed?): skipped, the Hypothesis shards alone decide")
+
     # (a run that found violations reports them: a broken tree can be the very reason a class never occurs,
     #  e.g. "Jacobian invoked" when every call of the Jacobian crashes)
     if hasattr(mod, "floors"):
